@@ -11,7 +11,7 @@ import Generated.Tables
 * statements in prefix notation
     `class <name> <bases|-> <decos|-> <doc|-> ( body )`      `def <name> <0|1> <decos|-> <doc|->`
     `asg <name> <lit> <ann|->`   `ann <name> <ann>`   `str <text>`   `blk <i|t|w|f> ( body ) ( tail )`
-    `main ( body )`   `cmp <d|m|n> <eq|ne|is|isnot> <d|m|n> <0|1 negated> ( body )`   `old <name> <c|s>`   `oth`
+    `del <name>`   `doc <name> <text>` (`name.__doc__ = text`)   `main ( body )`   `cmp <d|m|n> <eq|ne|is|isnot> <d|m|n> <0|1 negated> ( body )`   `old <name> <c|s>`   `oth`
 * decos  comma separated: `c s p` (bare) `C S P` (`builtins.` spelling) `set=<x>` `del=<x>` `ov` `o=<name>` `un`
 * lit    `i f c s b B N X` · `L(…)` `T(…)` `S(…)` `D(keys|values)`
 
@@ -19,6 +19,9 @@ Answers
 * pd: `ok <name>|<Function|Attribute|Class>|<KIND>|<doc>|<0|1>|<annotation>` … in `contents` order, or `AssertionError`
 * py: `ok <name>|<kind class>|<0|1>|<cleaned doc>|<type>` … in `__dict__` order, or `raises`
 * `builder subset …` (same arguments as pd/py) → `in` / `out` (`Subset.inSubset`)
+* `builder find <name> <class contents…>` → `True|False`: `_maybeAttribute` over the chain `cls.mro()` (own class first);
+  class contents = `-` or comma separated `<name>=<A|N>`;  `builder inherited <bases' contents…>` → the names
+  `Class.find` on the bases answers with a non-Attribute (`Builder.inheritedNonAttrOf`), in order, `-` if none
 * `builder kind <M|C> <decos>` → `<pydoctor kind class> <CPython kind class>`
 * `builder infer <lit>` → `<annotation text|-> <type(value).__name__> <element type names>` -/
 namespace Builder
@@ -153,6 +156,13 @@ def parseStmt : Nat → List String → Option (Stmt × List String)
     let n ← parseName n
     let w ← match w with | "c" => some Wrap.classmethod | "s" => some Wrap.staticmethod | _ => none
     some (.oldStyle n w, rest)
+  | _+1, "del" :: n :: rest => do
+    let n ← parseName n
+    some (.delName n, rest)
+  | _+1, "doc" :: n :: t :: rest => do
+    let n ← parseName n
+    let t ← Proto.decodeStr t
+    some (.docAssign n t, rest)
   | _+1, "oth" :: rest => some (.other, rest)
   | _, _ => none
 /-- statements up to the closing `)` -/
@@ -218,8 +228,26 @@ def showPy (inClass : Bool) (p : Name × PySem.PyObj) : String :=
     showOptStr ((PySem.rawDoc p.2).map Builder.cleandoc),
     (match p.2 with | .value l => showType l | _ => "-")]
 
+/-- a class's contents for `find`: `-` or comma separated `<u:name>=<A|N>` (A = the object is an Attribute) -/
+def parseClassContents (tok : String) : Option ClassContents :=
+  if tok == "-" then some [] else
+  (tok.splitOn ",").mapM fun e =>
+    match e.splitOn "=" with
+    | [n, k] => (parseName n).map fun n => (n, k == "A")
+    | _ => none
+
 def handle (args : List String) : String :=
   match args with
+  | "find" :: n :: chain =>
+    match parseName n, chain.mapM parseClassContents with
+    | some n, some ch => if maybeAttributeIn ch n then "True" else "False"
+    | _, _ => "bad-op"
+  | "inherited" :: chain =>
+    match chain.mapM parseClassContents with
+    | some ch =>
+      let l := (inheritedNonAttrOf ch).foldl (fun acc x => if acc.contains x then acc else acc ++ [x]) []
+      if l.isEmpty then "-" else ",".intercalate (l.map Proto.encodeStr)
+    | none => "bad-op"
   | "pd" :: scope :: inh :: env :: toks =>
     match parseCtx scope inh env, parseTop toks with
     | some c, some stmts =>
